@@ -187,7 +187,7 @@ Proof.
       { subst prev. destruct d as [i|]; [exact Hdisk|]. subst pubs. reflexivity. }
       assert (Hh : u32 (t_height nd + 1) = t_height nd + 1) by (apply u32_small; unfold tip_ok in Hokn; lia).
       destruct c.
-      * destruct (tip_ok _) eqn:Hok'; [|discriminate]. injection Hstep as <-. cbn [published]. rewrite Hh.
+      * destruct (tip_ok {| t_hmhp := t_smhp nd; t_smhp := after; t_height := t_height nd + 1 |}) eqn:Hok'; [|discriminate]. injection Hstep as <-. cbn [published]. rewrite Hh.
         constructor; cbn [mhg gen mhp height]; auto.
         intros p Hin. split; [apply Hgen; assumption|]. specialize (Hbelow p Hin). unfold below, tip_ok in *. lia.
       * injection Hstep as <-. exact Hfol.
@@ -206,7 +206,7 @@ Proof.
       assert (Hmax : largest prev = max_height pubs).
       { subst prev. destruct d as [i|]; [exact Hdisk|]. subst pubs. reflexivity. }
       destruct c.
-      * destruct (tip_ok _) eqn:Hok'; [|discriminate]. injection Hstep as <-. cbn [disk published].
+      * destruct (tip_ok {| t_hmhp := t_smhp nd; t_smhp := after; t_height := t_height nd + 1 |}) eqn:Hok'; [|discriminate]. injection Hstep as <-. cbn [disk published].
         unfold largest at 1; cbn [gi_height gi_mhg max_height height]. rewrite Hmax. reflexivity.
       * injection Hstep as <-. exact Hdisk.
       * exfalso. apply (Hnc after). reflexivity.
@@ -225,7 +225,7 @@ Proof.
   - injection Hrun as <-. assumption.
   - destruct (step g init_header s e) as [s1|] eqn:E; [|discriminate].
     eapply IH; [eapply step_inv_eq; [exact Hinv| |exact E]| |exact Hrun].
-    + intros a Ha. apply (Hnc a). left. symmetry. exact Ha.
+    + intros a Ha. apply (Hnc a). left. exact Ha.
     + intros a Ha. apply (Hnc a). right. exact Ha.
 Qed.
 
@@ -255,7 +255,7 @@ Proof.
   exists 7, {| t_hmhp := 50; t_smhp := 50; t_height := 98 |}, w_evs.
   eexists. split; [reflexivity|]. split; [vm_compute; reflexivity|].
   exists (Build_bh 91 7 90 60), (Build_bh 100 7 99 50).
-  split; [left; reflexivity|]. split; [right; right; right; left; reflexivity|]. split; [discriminate|]. vm_compute. reflexivity.
+  split; [left; reflexivity|]. split; [right; right; left; reflexivity|]. split; [discriminate|]. vm_compute. reflexivity.
 Qed.
 
 (* the same events on the repaired code *)
